@@ -213,14 +213,39 @@ class Prober:
         except Exception as e:
             res.violation(f"C07/compiled-code-raises probe={label}", {"cell": cell, "error": f"{type(e).__name__}: {e}"[:500], "source": src})
             return "raise"
-        why = compare(want, got, scale)
-        if why:
-            names = unpack or []
-            res.violation(f"C07/compiled-result-differs probe={label}" + (f" member={_member(why, names)}" if names else ""),
+        # every member of a multi-return probe is judged on its own, so that one (known) difference cannot mask another
+        if unpack and isinstance(want, tuple) and isinstance(got, tuple) and len(want) == len(got) == len(unpack):
+            members = list(zip(unpack, want, got))
+        else:
+            members = [(None, want, got)]
+        bad = False
+        for name, w_, g_ in members:
+            why = compare(w_, g_, scale)
+            if not why:
+                continue
+            bad = True
+            if self._mixed_flavor_known(why, args):
+                res.violation("C07/compiled-result-is-momentum-only-if-both-operands-are",
+                              {"cell": cell, "probe": label, "member": name, "why": why})
+                continue
+            res.violation(f"C07/compiled-result-differs probe={label}" + (f" member={name}" if name else ""),
                           {"cell": cell, "why": why, "source": src, "args": [repr(a)[:120] for a in args]})
+        if bad:
             return "differs"
         res.cell(label, cell)
         return "ok"
+
+    @staticmethod
+    def _mixed_flavor_known(why, args):
+        """known finding: compiled binary operations give a momentum result only if *both* vector operands are
+        momentum vectors (interpreter: if any) — exactly: class differs only in flavor, compiled side generic,
+        and the call has one momentum and one generic vector argument"""
+        from vector._methods import Momentum, Vector
+
+        if "class VectorObject" not in why or "!= MomentumObject" not in why:
+            return False
+        vs = [a for a in args if isinstance(a, Vector)]
+        return len(vs) == 2 and isinstance(vs[0], Momentum) != isinstance(vs[1], Momentum)
 
 
 def _member(why, names):
